@@ -287,6 +287,8 @@ class Model:
                 except (SyntaxError, OSError, UnicodeDecodeError) as err:
                     raise AnalysisError("cannot parse %s: %s" % (rel, err))
                 self.modules[modname] = ModuleInfo(self, modname, path, rel, tree, src)
+        from .normalize import normalize_module_trees
+        self.normalisation_log = normalize_module_trees({name: m.tree for name, m in self.modules.items()})
         for m in self.modules.values():
             self._scan_module(m)
         for c in list(self.classes.values()):
